@@ -13,6 +13,7 @@ def currentCfg (ttl maxCache : Nat) : Cfg :=
   { serialDB := serialDBNow
     genGuard := Arc.Generated.C21.genGuard
     hitChecksExpiry := Arc.Generated.C21.hitChecksExpiry
+    hitTouch := Arc.Generated.C21.hitPathWritesCache
     ttl := ttl, maxCache := maxCache }
 
 /-- does the mutator of this (mode, kind) call InvalidateCache after its SQL statement? -/
